@@ -203,6 +203,70 @@ def full_lens(L):
     return list(range(0, 2 * 8 * L + L + L))
 
 
+# ---- literal-guided lengths ---------------------------------------------------------------------------------------------
+# A kernel that treats long vectors specially (`if dims > 4096 { .. }`, blocks of 1024, ...) escapes every fixed length grid.
+# The thresholds are in the source: every integer literal >= 16 of the kernel's own file (and of core_simd_api.rs) adds a few
+# lengths around it.  On the unchanged tree these files contain no such literal, so the grids are unchanged.
+_LITS = None
+_OP_FILES = {"generic_cosine": ["op_cosine.rs", "op_dot_product.rs"]}
+
+
+def _kernel_literals():
+    global _LITS
+    if _LITS is not None:
+        return _LITS
+    import glob
+    import re as _re
+    import sys as _sys
+    _sys.path.insert(0, os.path.join(lib.VERIF, "tools"))
+    import rustlex
+    d = os.path.join(lib.REPO, "cfavml", "src", "danger")
+    by_file, fn_file = {}, {}
+    for p in sorted(glob.glob(os.path.join(d, "op_*.rs"))) + [os.path.join(d, "core_simd_api.rs")]:
+        try:
+            src = open(p).read()
+        except OSError:
+            continue
+        k = src.find("#[cfg(test)]")
+        body = src if k < 0 else src[:k]
+        base = os.path.basename(p)
+        for m in _re.finditer(r"fn\s+(generic_\w+)", body):
+            fn_file[m.group(1)] = base
+        vals = set()
+        try:
+            toks = rustlex.tokenize(body)
+        except Exception:
+            toks = []
+        for t in toks:
+            if t.kind == "num":
+                m = _re.match(r"^(0x[0-9a-fA-F]+|\d+)(usize|u64|u32|i32|i64|isize)?$", t.text.replace("_", ""))
+                if m:
+                    v = int(m.group(1), 0)
+                    if 16 <= v <= 100000:
+                        vals.add(v)
+        by_file[base] = sorted(vals)[:4]
+    _LITS = (by_file, fn_file)
+    return _LITS
+
+
+def literal_lens(op, L):
+    by_file, fn_file = _kernel_literals()
+    files = _OP_FILES.get(op, []) + [fn_file.get(op, ""), "core_simd_api.rs"]
+    out = []
+    for f in dict.fromkeys(files):
+        for c in by_file.get(f, []):
+            # both parities of the number of whole dense blocks above the threshold, and its two sides
+            out += [c - 1, c + 3, c + 8 * L + 3, c + 16 * L + L + 1]
+    return sorted(set(x for x in out if x >= 0))
+
+
+def lens_for(e, lens_fn):
+    """the grid of lens_fn plus the literal-guided lengths of e's kernel (marked: the second component is True)"""
+    L = lanes(e)
+    base = list(lens_fn(L))
+    return [(n, False) for n in base] + [(n, True) for n in literal_lens(e["op"], L) if n not in base]
+
+
 def canon_line(line, e):
     """Results of max/min routines are compared modulo the sign of zero (C05: +0 and -0 compare equal)."""
     if line is None:
@@ -241,18 +305,18 @@ def gen_cases(ctx, rows, lens_fn, classes, places=("R",), forms=("a",), seed_tag
     for idx, e in rows:
         L = lanes(e)
         ty = e["ty"]
-        for n in lens_fn(L):
+        for n, guided in lens_for(e, lens_fn):
             for form in forms:
                 if form == "c" and (const_dims is None or n not in const_dims):
                     continue
-                for cls in classes:
+                for cls in (classes[:1] if guided else classes):
                     la, lb, lr = shape(e, n)
                     is_div = "div" in e["op"]
                     a = g.vec(ty, la, cls)
                     b = g.vec(ty, lb, cls, nonzero=is_div and g.r.below(8) != 0)
                     r = g.vec(ty, lr, "random")
                     v = g.vec(ty, 1, cls, nonzero=is_div and g.r.below(8) != 0)[0]
-                    for place in places:
+                    for place in (places[:1] if guided else places):
                         cases.append(case_line(idx, e, form, n if form == "c" else None, debug, place, v, a, b, r))
                         meta.append((idx, e, form, n, cls, place))
     return cases, meta
